@@ -1010,6 +1010,46 @@ pub fn info(rng: &mut Rng, be: bool, asz: u8) -> (Vec<u8>, Vec<u8>, Vec<u8>) {
 /// split-DWARF extension), children refer to range / location lists by offset or index, and
 /// every table is generated with the geometry those attributes name. Values are biased to the
 /// boundaries of the address size.
+/// Size knob for DIE nesting: one unit whose DIEs form a chain `depth` deep (each DIE is the
+/// only child of the previous one; a few have a small attribute), closed by `depth` nulls or
+/// left open. Makes stack use proportional to nesting depth visible.
+pub fn deep_chain(rng: &mut Rng, be: bool, asz: u8, depth: usize) -> (Vec<u8>, Vec<u8>) {
+    let mut ab = Asm::new(be);
+    // 1: compile unit with children; 2: children, no attributes; 3: children, one data1;
+    // 4: leaf with one data1
+    ab.uleb(1).uleb(0x11).u8(1).u8(0).u8(0);
+    ab.uleb(2).uleb(0x0b).u8(1).u8(0).u8(0);
+    ab.uleb(3).uleb(0x2e).u8(1).uleb(0x0b).uleb(0x0b).u8(0).u8(0);
+    ab.uleb(4).uleb(0x34).u8(0).uleb(0x0b).uleb(0x0b).u8(0).u8(0);
+    ab.u8(0);
+    let version = *rng.pick(&[2u16, 4, 4, 5]);
+    let mut info = Asm::new(be);
+    let tok = info.begin_len(false);
+    info.u16(version);
+    if version >= 5 {
+        info.u8(1).u8(asz).u32(0);
+    } else {
+        info.u32(0).u8(asz);
+    }
+    info.uleb(1);
+    let mixed = rng.bool();
+    for i in 0..depth {
+        if mixed && i % 7 == 3 {
+            info.uleb(3).u8(i as u8);
+        } else {
+            info.uleb(2);
+        }
+    }
+    info.uleb(4).u8(1);
+    if !rng.chance(1, 4) {
+        for _ in 0..depth + 1 {
+            info.u8(0);
+        }
+    }
+    info.end_len(tok, 0);
+    (ab.v, info.v)
+}
+
 pub fn info_lists(rng: &mut Rng, be: bool, asz: u8, dwo: bool) -> std::collections::BTreeMap<String, Vec<u8>> {
     let version = *rng.pick(&[2u16, 3, 4, 4, 4, 5, 5, 5]);
     info_lists_with(rng, be, asz, dwo, version, None)
